@@ -263,6 +263,12 @@ class Contract:
     def strip(self, t):
         return STRIP(t)
 
+    def regex_matches(self, rx, s):
+        return z3.Function(f"MATCHES_{rx}", z3.StringSort(), z3.BoolSort())(s)
+
+    def regex_group(self, rx, g, s):
+        return z3.Function(f"GROUP_{rx}_{g}", z3.StringSort(), z3.StringSort())(s)
+
     def strip_chars(self, t, chars):
         return STRIPCH(t, chars)
 
